@@ -28,6 +28,8 @@ claimed = {
          "function-level: obligations that need facts from callers and do not discharge are NOT claimed (listed as unproved_unclaimed in the evidence); receivers of methods are assumed non-nil; 'does not affect other connections' beyond no-panic is outside", "4/C13"),
  "C14": ("proof", "for all field values / all 64-byte inputs: Decode(Encode(x)) == x and Encode(Decode(b)) == b on every defined byte for all 20 command/result types (real Encode/Decode bodies composed by harness functions), and the LOCK/UNLOCK request and response frames match the README offsets byte for byte",
          "string fields (CALL method name, error type, leader host) are excluded from the value round trip (strings.Trim not modelled); server-side hand-inlined codecs, text parser chunk independence and text<->binary equivalence not yet under contract", "4/C14"),
+ "C20": ("proof", "the three segmented array deques of server/queue.go (LockQueue, LockCommandQueue, LockManagerQueue): representation invariant qInv established by the constructor and preserved by Push, PushLeft, Pop, PopRight, Reset and Rellac; each of these, and Head, Tail, IterNodes, IterNodeQueues, is proved against the abstract view (the cells between the head and tail cursors in node-major order): which cell receives or yields the element, where the cursors move (including every node-boundary crossing and node allocation), and that every other cell keeps its element; Len exact while the cursors are at most one node apart",
+         "Resize, Restructuring, Shrink and freeQueue are NOT under contract (Resize leaves allocated nodes above nodeIndex, outside qInv, so the proofs cover queues on which these four have not been applied); the key-level queues built on top (LockManagerLockQueue, LockManagerWaitQueue, ring and priority ring queues, LongWaitLockQueue) keep trusted contracts; Len beyond two nodes is not proved equal to the element count (32-bit sum); fewer than 2^30 nodes is assumed by the growing operations; encapsulation (no code outside the methods writes the fields) is not checked; constructor arguments at call sites are assumed to satisfy C20.ctor", "4/C20"),
  "C12": ("proof", "CompareAofId equals the specified log-position order for all 2^256 input pairs; acceptor handlers (remote and self proposal/commit): accepted and committed numbers never decrease, a proposal is accepted only above both and only while no commit is outstanding, a commit only for exactly the accepted number, once, and the reply is an ack iff the state changed; DoVote only ever selects a data-bearing member of non-zero weight (loop invariant); vote/proposal/commit succeed only with len(members)/2+1 answers",
          "one handler call at a time under voter.glock (any delivery order is a sequence of such calls); maximality of the chosen log position in DoVote, durability across restart (ArbiterStore) and the announcement/offline clearing steps are not under contract; transport and kill -9 outside; slice capacities are assumed <= 2^62", "4/C12"),
 }
